@@ -8,10 +8,10 @@ PROFS = ['all', 'notnew', 'func', 'required', 'safe', 'prio', 'priomap', 'ops', 
 OPS = ('!append', '!extend', '!prev', '!clear')
 
 
-def parse1(text, safe=True):
+def parse1(text, safe=True, filename='<doc>'):
     from awesomeyaml.builder import Builder
     b = Builder()
-    b.add_source(text, raw_yaml=True, filename='<doc>', safe=safe)
+    b.add_source(text, raw_yaml=True, filename=filename, safe=safe)
     return b.stages
 
 
@@ -81,7 +81,7 @@ def judge(case):
     from awesomeyaml import yaml as ayaml
     texts, pos = case['texts'], case['pos']
     try:
-        st = parse1(texts[pos])
+        st = parse1(texts[pos], filename=f'<s{pos}>')      # the name the document has inside the merge sequence (a !path:file node records it)
     except Exception:
         return None
     if len(st) != 1:
@@ -91,7 +91,7 @@ def judge(case):
     except Exception as e:
         return dict(texts=texts, pos=pos, kind='dump-fail', reason='a parsed document cannot be dumped', error=type(e).__name__ + ': ' + str(e)[:160])
     try:
-        st2 = parse1(dumped)
+        st2 = parse1(dumped, filename=f'<s{pos}>')
     except Exception as e:
         return dict(texts=texts, pos=pos, kind='reparse-fail', reason='the dumped text cannot be parsed back', dumped=dumped, error=type(e).__name__ + ': ' + str(e)[:200])
     if len(st2) != 1:
@@ -164,6 +164,40 @@ def tricky_corpus(rng, n):
         base_doc = '{first: 0, s1: old, l: [1, 2, 3], n: 5, m: {k: 1}}'
         out.append(dict(texts=[base_doc, doc], pos=1))
         out.append(dict(texts=[doc, '{after: !weak z, extra: 1}'], pos=0))
+    return out
+
+
+def dyn_corpus(rng, n):
+    """shapes the document grammar does not produce: containers carrying TWO marks (written as one :hex tag) followed in document order
+    by unrelated nodes with the same mark; !call / !bind with flags and metadata; !path nodes with dynamic or marked components"""
+    PR = [('!force', 1), ('!weak', -1)]
+    out = []
+    for _ in range(n):
+        (t1, p1), (t2, p2) = rng.choice(PR), rng.choice(PR)
+        note = rng.choice(['tuned', 'x y', '1'])
+        two = rng.choice([
+            "!metadata{{'priority': %d, 'note': '%s'}} {p: 1, q: [1, 2]}" % (p1, note),
+            "!metadata{{'priority': %d, 'note': '%s'}} [1, {p: 2}]" % (p1, note),
+            "!call:vmod.f{{'priority': %d}} {p: 1, q: [1, 2]}" % p1,
+            "!bind:vmod.g{{'priority': %d, 'note': '%s'}} {p: 1}" % (p1, note),
+            "!del{{'priority': %d}} {p: 1}" % p1,
+            "!metadata{{'delete': True, 'note': '%s'}} {p: 1}" % note,
+        ])
+        sib = rng.choice(['%s 2' % t1, '%s 2' % t2, '!del {z: 1}', '%s [5]' % t1, "!metadata{{'note': '%s'}} 2" % note])
+        cousin = rng.choice(['{d: [%s 3, 4]}' % t1, '{d: [%s 3, 4], e: %s {f: 1}}' % (t2, t1), '[%s {g: 1}, 2]' % t1])
+        pathn = rng.choice([
+            '!path:cwd [runs, !xref name]', '!path:cwd [runs, logs]', '!path:file [x, %s y]' % t1, '!path:abs [/tmp, !xref name, out]',
+            '!path:parent(1) [cfg, !xref name]', "!path:cwd{{'priority': %d}} [runs, !xref name]" % p1,
+        ])
+        ents = [('a', two), ('b', sib), ('c', cousin), ('root', pathn), ('name', 'exp1')]
+        if rng.random() < 0.6:
+            rng.shuffle(ents)
+        doc = '{' + ', '.join(f'{k}: {v}' for k, v in ents) + '}'
+        base_doc = '{a: {p: 0, q: [0]}, b: 0, c: {d: [0, 0]}, name: old, root: none}'
+        later = '{a: {p: 10}, b: 20, c: {d: !merge [30]}, name: exp2}'
+        out.append(dict(texts=[base_doc, doc], pos=1))
+        out.append(dict(texts=[doc, later], pos=0))
+        out.append(dict(texts=[base_doc, doc, later], pos=1))
     return out
 
 
@@ -240,6 +274,8 @@ def run(rep, tier, rng):
         cases.append(dict(texts=tx, pos=pos))
     base.run_oracle(rep, 'C18', 'dump / parse / substitute / evaluate / dump again', cases, judge, known_sig=known_sig, show=lambda c: dict(texts=c['texts'], pos=c['pos']))
     base.run_oracle(rep, 'C18', 'strings that need quoting after tagged scalars', tricky_corpus(rng, 60 if tier == 'quick' else 1500), judge, known_sig=known_sig)
+    base.run_oracle(rep, 'C18', 'doubly-marked containers followed by equally-marked nodes; !call / !bind with flags; !path with dynamic / marked components',
+                    dyn_corpus(rng, 40 if tier == 'quick' else 1000), judge, known_sig=known_sig)
     prod = nesting_product()
     if tier == 'quick':
         prod = rng.sample(prod, 500)
